@@ -595,11 +595,22 @@ def r4_result(ctx, chk, rule="C07.4", order_matters=True):
     elif isinstance(val, (ast.ListComp, ast.GeneratorExp, ast.SetComp)) or (isinstance(val, ast.Call) and call_name(val) in ("list", "tuple") and val.args):
         # the collection is returned as built: nothing sorts it
         compr = val if not isinstance(val, ast.Call) else val.args[0]
-        if order_matters:
+        by_index = False
+        if isinstance(compr, (ast.ListComp, ast.GeneratorExp)) and len(compr.generators) == 1 and isinstance(compr.elt, ast.Name):
+            g0 = compr.generators[0]
+            if isinstance(g0.iter, ast.Call) and call_name(g0.iter) == "enumerate" and len(g0.iter.args) == 1 and isinstance(g0.target, ast.Tuple) and g0.target.elts \
+                    and isinstance(g0.target.elts[0], ast.Name) and g0.target.elts[0].id == compr.elt.id:
+                by_index = True         # positions of a list, in order: ascending by construction
+            if isinstance(g0.iter, ast.Call) and call_name(g0.iter) == "range" and len(g0.iter.args) <= 2 and isinstance(g0.target, ast.Name) and g0.target.id == compr.elt.id:
+                by_index = True
+        if by_index:
+            sorted_by = "the result lists positions in increasing order (`%s`)" % src(compr.generators[0].iter)[:50]
+        elif order_matters:
             chk.violation(rule, f.where(ret), "the result `%s` is returned as it was built: it is not sorted" % src(val)[:80],
                           expected="sorted(...) / .sort() before the return", found=src(val)[:100], construct="reverse_dfs result unsorted")
             return
-        sorted_by = "(order not required by this property)"
+        if not by_index:
+            sorted_by = "(order not required by this property)"
     else:
         chk.undecided(rule, f.where(ret), "return value `%s` not recognised" % src(val))
         return
@@ -632,6 +643,14 @@ def r4_result(ctx, chk, rule="C07.4", order_matters=True):
         if srcname != s.visited_name and (s.visited_name is None or srcname is None or (srcname not in f.params and not _plain_collection_local(f, srcname))):
             # the elements come from something that is not traced (a lazy stream of discoveries, a helper's result)
             chk.undecided(rule, f.where(compr), "the result is drawn from `%s`; its relation to the visited collection `%s` is not resolved" % (src(gen.iter)[:60], s.visited_name))
+            return
+        fed_by_search = srcname is not None and s.search_fn is not None and any(
+            isinstance(n_, ast.Call) and isinstance(n_.func, ast.Attribute) and n_.func.attr in ("extend", "append", "update") and isinstance(n_.func.value, ast.Name)
+            and n_.func.value.id == srcname and any(isinstance(c_, ast.Call) and s.search_fn in ctx.cg.resolve(c_, f) for a_ in n_.args for c_ in ast.walk(a_))
+            for n_ in walk_no_nested_defs(f.node))
+        if srcname != s.visited_name and fed_by_search:
+            chk.undecided(rule, f.where(compr), "the result is drawn from `%s`, which collects what the searches return: its relation to the visited collection `%s` is not resolved" % (
+                srcname, s.visited_name))
             return
         if srcname != s.visited_name:
             chk.violation(rule, f.where(compr), "the result is built from `%s`, not from the visited collection `%s`" % (src(gen.iter), s.visited_name),
@@ -1083,7 +1102,47 @@ def _grouping_and_pairs(ctx, chk, rule, sx, base_dict, tl, f, fn_of, where):
     chk.ok(rule, cf.where(Li.node), "pairs: for every state index s (enumerate, whole list) and every transition (_, t): append (t, s); no filter, no early exit")
 
 
+def r7_flag_list_membership(ctx, chk, rule="C07.3"):
+    """`visited = [False] * n` ... `if state in visited`: on a list of flags `in` compares the state with the flags themselves
+    (0 == False, 1 == True): state 0 counts as visited from the start and state 1 as soon as any flag is set."""
+    mod = ctx.prog.mod("reverse_dfs.py")
+    flaglists = {}          # func qual -> names
+    for f in mod.funcs.values():
+        for n in walk_no_nested_defs(f.node):
+            if isinstance(n, ast.Assign) and len(n.targets) == 1 and isinstance(n.targets[0], ast.Name):
+                v = n.value
+                is_flags = (isinstance(v, ast.BinOp) and isinstance(v.op, ast.Mult) and isinstance(v.left, ast.List) and len(v.left.elts) == 1
+                            and isinstance(v.left.elts[0], ast.Constant) and isinstance(v.left.elts[0].value, bool)) or \
+                    (isinstance(v, ast.ListComp) and isinstance(v.elt, ast.Constant) and isinstance(v.elt.value, bool))
+                if is_flags:
+                    flaglists.setdefault(f.qual, set()).add(n.targets[0].id)
+    # parameters that receive a flag list
+    changed = True
+    while changed:
+        changed = False
+        for f in mod.funcs.values():
+            names = flaglists.get(f.qual, set())
+            for call, cs in ctx.cg.call_sites(f):
+                for g in cs:
+                    gp = [p_ for p_ in g.params if p_ != "self"]
+                    for i, a in enumerate(call.args):
+                        if isinstance(a, ast.Name) and a.id in names and i < len(gp) and gp[i] not in flaglists.get(g.qual, set()):
+                            flaglists.setdefault(g.qual, set()).add(gp[i])
+                            changed = True
+    hits = 0
+    for f in mod.funcs.values():
+        names = flaglists.get(f.qual, set())
+        for n in walk_no_nested_defs(f.node):
+            if isinstance(n, ast.Compare) and len(n.ops) == 1 and isinstance(n.ops[0], (ast.In, ast.NotIn)) and isinstance(n.comparators[0], ast.Name) and n.comparators[0].id in names:
+                hits += 1
+                chk.violation(rule, f.where(n), "`%s`: `%s` is a list of flags, so `in` compares the state with the flags themselves (0 == False, 1 == True) - state 0 counts as visited "
+                              "from the start, state 1 as soon as any state is marked, and their searches are skipped" % (src(n), n.comparators[0].id),
+                              expected="%s[state]" % n.comparators[0].id, found=src(n), construct="%s membership test on a flag list" % f.short)
+    return hits
+
+
 def run(ctx, chk):
+    r7_flag_list_membership(ctx, chk)
     r1_no_recursion(ctx, chk)
     r2_roots(ctx, chk)
     r35_worklist(ctx, chk)
